@@ -341,9 +341,10 @@ theorem importRenum_getElem? : ∀ (ts : List Trig) (u n i : Nat),
 /-- the exact shape of `import_triggers(triggers)` (default index): the existing triggers are untouched, the imported
 copies are appended with ids = positions, the display order is reset to the identity, links between imported triggers
 point at the imported copies, links to triggers that were not imported are reset to -1 -/
-theorem import_shape {tm tm' : TM} {ts : List Trig} {news : List Nat} (h : importTriggers tm ts none = .ok (tm', news)) :
+theorem import_shape {ext : Bool} {tm tm' : TM} {ts : List Trig} {news : List Nat}
+    (h : importTriggers ext tm ts none = .ok (tm', news)) :
     tm'.trigs.take tm.trigs.length = tm.trigs ∧ tm'.trigs.length = tm.trigs.length + ts.length ∧
-    tm'.order = range (tm.trigs.length + ts.length) ∧
+    (ext = false → tm'.order = range (tm.trigs.length + ts.length)) ∧ (ext = true → tm'.order = tm.order) ∧
     ∀ (i : Nat) (t : Trig), ts[i]? = some t → ∃ c, tm'.trigs[tm.trigs.length + i]? = some c ∧
       c.tid = tm.trigs.length + i ∧ news[i]? = some c.uid ∧ c.effs.length = t.effs.length ∧
       ∀ (j : Nat) (e e' : Eff), t.effs[j]? = some e → c.effs[j]? = some e' →
@@ -352,58 +353,61 @@ theorem import_shape {tm tm' : TM} {ts : List Trig} {news : List Nat} (h : impor
           (k ∈ ts.map (·.tid) → ∃ i' : Nat, (ts[i']?).map (·.tid) = some k ∧ e'.target = some (tm.trigs.length + i')) ∧
           (k ∉ ts.map (·.tid) → e'.target = none)) := by
   unfold importTriggers at h
-  simp only [Except.ok.injEq, Prod.mk.injEq] at h
-  obtain ⟨rfl, rfl⟩ := h
-  have hlen : ((importRenum tm.next tm.trigs.length ts).map
-      (fun t => ({ t with effs := t.effs.map (remapEffImport (changesFrom tm.trigs.length ts)) } : Trig))).length = ts.length := by
-    have := congrArg List.length (importRenum_uid ts tm.next tm.trigs.length)
-    simpa using this
-  refine ⟨by simp, by simp [hlen], by simp [hlen], fun i t hit => ?_⟩
-  have hil : i < ts.length := (List.getElem?_eq_some_iff.1 hit).1
-  refine ⟨⟨tm.next + i, tm.trigs.length + i, t.effs.map (remapEffImport (changesFrom tm.trigs.length ts))⟩, by
-    simp only
-    rw [getElem?_append_right (by omega)]
-    simp only [Nat.add_sub_cancel_left, getElem?_map, importRenum_getElem?, hit, Option.map_some], rfl,
-    by simp [importRenum_getElem?, hit], by simp, fun j e e' he he' => ?_⟩
-  simp only [getElem?_map, he, Option.map_some, Option.some.injEq] at he'
-  subst he'
-  by_cases ha : e.isAct = true
-  · cases ht : e.target with
-    | none =>
-      have hr : remapEffImport (changesFrom tm.trigs.length ts) e = e := by simp [remapEffImport, ht]
+  cases ext
+  all_goals
+    simp only [Bool.false_eq_true, if_false, if_true, Except.ok.injEq, Prod.mk.injEq] at h
+    obtain ⟨rfl, rfl⟩ := h
+    have hlen : ((importRenum tm.next tm.trigs.length ts).map
+        (fun t => ({ t with effs := t.effs.map (remapEffImport (changesFrom tm.trigs.length ts)) } : Trig))).length = ts.length := by
+      have := congrArg List.length (importRenum_uid ts tm.next tm.trigs.length)
+      simpa using this
+    refine ⟨by simp, by simp [hlen], fun he => by first | exact absurd he (by decide) | simp [hlen],
+      fun he => by first | exact absurd he (by decide) | rfl, fun i t hit => ?_⟩
+    have hil : i < ts.length := (List.getElem?_eq_some_iff.1 hit).1
+    refine ⟨⟨tm.next + i, tm.trigs.length + i, t.effs.map (remapEffImport (changesFrom tm.trigs.length ts))⟩, by
+      simp only
+      rw [getElem?_append_right (by omega)]
+      simp only [Nat.add_sub_cancel_left, getElem?_map, importRenum_getElem?, hit, Option.map_some], rfl,
+      by simp [importRenum_getElem?, hit], by simp, fun j e e' he he' => ?_⟩
+    simp only [getElem?_map, he, Option.map_some, Option.some.injEq] at he'
+    subst he'
+    by_cases ha : e.isAct = true
+    · cases ht : e.target with
+      | none =>
+        have hr : remapEffImport (changesFrom tm.trigs.length ts) e = e := by simp [remapEffImport, ht]
+        rw [hr]
+        refine ⟨rfl, fun _ => rfl, fun _ => ?_⟩
+        exact ⟨fun _ => ht, fun k hk => (by cases hk)⟩
+      | some k =>
+        have hr : remapEffImport (changesFrom tm.trigs.length ts) e =
+            { e with target := lookupLast (changesFrom tm.trigs.length ts) k } := by simp [remapEffImport, ha, ht]
+        rw [hr]
+        refine ⟨rfl, ?_, ?_⟩
+        · intro hf; rw [ha] at hf; cases hf
+        intro _
+        refine ⟨fun hn => (by cases hn), fun k' hk' => ?_⟩
+        cases hk'
+        constructor
+        · intro hmem
+          cases hl : lookupLast (changesFrom tm.trigs.length ts) k with
+          | none =>
+            have := lookupLast_eq_none.1 hl
+            rw [← changesFrom_keys ts tm.trigs.length] at hmem
+            obtain ⟨p, hp, hpk⟩ := mem_map.1 hmem
+            exact absurd hpk (this p hp)
+          | some v =>
+            obtain ⟨i', h1, h2⟩ := mem_changesFrom (lookupLast_mem hl)
+            exact ⟨i', h1, by simp [h2]⟩
+        · intro hnm
+          have : lookupLast (changesFrom tm.trigs.length ts) k = none := by
+            rw [lookupLast_eq_none]
+            intro p hp hpk
+            apply hnm
+            rw [← changesFrom_keys ts tm.trigs.length]
+            exact mem_map.2 ⟨p, hp, hpk⟩
+          simp [this]
+    · have hr : remapEffImport (changesFrom tm.trigs.length ts) e = e := by simp [remapEffImport, ha]
       rw [hr]
-      refine ⟨rfl, fun _ => rfl, fun _ => ?_⟩
-      exact ⟨fun _ => ht, fun k hk => (by cases hk)⟩
-    | some k =>
-      have hr : remapEffImport (changesFrom tm.trigs.length ts) e =
-          { e with target := lookupLast (changesFrom tm.trigs.length ts) k } := by simp [remapEffImport, ha, ht]
-      rw [hr]
-      refine ⟨rfl, ?_, ?_⟩
-      · intro hf; rw [ha] at hf; cases hf
-      intro _
-      refine ⟨fun hn => (by cases hn), fun k' hk' => ?_⟩
-      cases hk'
-      constructor
-      · intro hmem
-        cases hl : lookupLast (changesFrom tm.trigs.length ts) k with
-        | none =>
-          have := lookupLast_eq_none.1 hl
-          rw [← changesFrom_keys ts tm.trigs.length] at hmem
-          obtain ⟨p, hp, hpk⟩ := mem_map.1 hmem
-          exact absurd hpk (this p hp)
-        | some v =>
-          obtain ⟨i', h1, h2⟩ := mem_changesFrom (lookupLast_mem hl)
-          exact ⟨i', h1, by simp [h2]⟩
-      · intro hnm
-        have : lookupLast (changesFrom tm.trigs.length ts) k = none := by
-          rw [lookupLast_eq_none]
-          intro p hp hpk
-          apply hnm
-          rw [← changesFrom_keys ts tm.trigs.length]
-          exact mem_map.2 ⟨p, hp, hpk⟩
-        simp [this]
-  · have hr : remapEffImport (changesFrom tm.trigs.length ts) e = e := by simp [remapEffImport, ha]
-    rw [hr]
-    exact ⟨rfl, fun _ => rfl, fun h' => absurd h' ha⟩
+      exact ⟨rfl, fun _ => rfl, fun h' => absurd h' ha⟩
 
 end Aoe.Trig
